@@ -122,8 +122,39 @@ func vfSeqProgram(rng *rand.Rand, nops, maxIDs int) []vfSeqOp {
 	return prog
 }
 
+// vfSeqCacheProgram: more batches than the read cache holds (it starts evicting above 1000 entries), every
+// one looked up and followed twice, then oldest-first deletion with re-reads: a lookup must return what was
+// added under that id no matter what the cache evicted or kept.
+func vfSeqCacheProgram(rng *rand.Rand, nbatches int) []vfSeqOp {
+	var prog []vfSeqOp
+	id := uint64(0)
+	var ids []uint64
+	for i := 0; i < nbatches; i++ {
+		id += uint64(1 + rng.Intn(3))
+		ids = append(ids, id)
+		prog = append(prog, vfSeqOp{op: "Add", id: id, n: 1 + rng.Intn(2)})
+	}
+	for pass := 0; pass < 2; pass++ {
+		for _, x := range ids {
+			prog = append(prog, vfSeqOp{op: "Get", id: x})
+			if rng.Intn(2) == 0 {
+				prog = append(prog, vfSeqOp{op: "GetNext", id: x})
+			}
+		}
+	}
+	for i := 0; i < nbatches/4; i++ {
+		prog = append(prog, vfSeqOp{op: "Delete", id: ids[i]})
+		prog = append(prog, vfSeqOp{op: "Get", id: ids[i+1+rng.Intn(nbatches/2)]})
+		prog = append(prog, vfSeqOp{op: "GetNext", id: ids[i+rng.Intn(nbatches/2)]})
+	}
+	return prog
+}
+
 func vfSeqChunk(t *testing.T, w *bufio.Writer, rng *rand.Rand, name string, nops, maxIDs int, full bool) {
 	prog := vfSeqProgram(rng, nops, maxIDs)
+	if maxIDs < 0 {
+		prog = vfSeqCacheProgram(rng, nops)
+	}
 	set := map[uint64]bool{0: true}
 	for _, op := range prog {
 		if op.op != "Interrupt" {
@@ -311,5 +342,9 @@ func TestVerifC08Seq(t *testing.T) {
 	for i := 0; i < nLong; i++ {
 		vfSeqChunk(t, w, rng, fmt.Sprintf("seq-long-%d", i), longOps, 1<<30, false)
 	}
-	fmt.Fprintf(w, "{\"ev\":\"Done\",\"runs\":%d}\n", nShort+nLong)
+	nCache := atoi("VERIF_C08_SEQ_CACHE", 1)
+	for i := 0; i < nCache; i++ {
+		vfSeqChunk(t, w, rng, fmt.Sprintf("seq-cache-%d", i), 1150+rng.Intn(200), -1, false)
+	}
+	fmt.Fprintf(w, "{\"ev\":\"Done\",\"runs\":%d}\n", nShort+nLong+nCache)
 }
